@@ -181,6 +181,49 @@ func specItemType(b []byte, acc protowire.Number) protowire.Number {
 	return specItemType(b[tn+vn:], acc)
 }
 
+// specItemPayload: total number of payload bytes of the message subfields (3, bytes) of a
+// well-formed item, added to acc: the merged message is the concatenation of all of them.
+//
+// @ opaque
+func specItemPayload(b []byte, acc int) int {
+	tn := protowire.SpecTagLen(b)
+	if tn < 0 {
+		return acc
+	}
+	num := protowire.SpecVarintVal(b, tn) >> 3
+	typ := protowire.SpecVarintVal(b, tn) & 7
+	var vn int
+	switch {
+	case num == 1 && typ == 4:
+		return acc
+	case num == 2 && typ == 0:
+		vn = protowire.SpecVarintLen(b[tn:])
+	case num == 3 && typ == 2:
+		vn = protowire.SpecBytesLen(b[tn:])
+		if vn < 0 {
+			return acc
+		}
+		return specItemPayload(b[tn+vn:], acc+vn-protowire.SpecVarintLen(b[tn:]))
+	default:
+		vn = protowire.SpecValueLen(protowire.Number(num), protowire.Type(typ), b[tn:])
+	}
+	if vn < 0 {
+		return acc
+	}
+	return specItemPayload(b[tn+vn:], acc)
+}
+
+// specMsgPayload: number of payload bytes the accumulated message value holds.
+func specMsgPayload(message []byte, wantLen bool) int {
+	if message == nil {
+		return 0
+	}
+	if wantLen {
+		return len(message) - protowire.SpecVarintLen(message)
+	}
+	return len(message)
+}
+
 // ConsumeFieldValue: accepts exactly the item grammar, returns its length and type id, is safe
 // for every input, and decodes the encoder's form exactly.
 //
@@ -201,6 +244,7 @@ func specItemType(b []byte, acc protowire.Number) protowire.Number {
 // @ loop 1 invariant imp(specItemLen(b) < 0, specItemLen(old(b)) == specItemLen(b))
 // @ loop 1 invariant imp(specItemLen(b) >= 0, specItemLen(old(b)) == ilen-len(b)+specItemLen(b))
 // @ loop 1 invariant imp(specItemLen(b) >= 0, specItemType(old(b), 0) == specItemType(b, typeid))
+// @ loop 1 invariant imp(specItemLen(b) >= 0, specItemPayload(old(b), 0) == specItemPayload(b, specMsgPayload(message, wantLen)))
 // @ loop 1 invariant imp(specItemCanon(old(b)), len(b) == ilen || ilen-len(b) == specItemP(old(b)) || ilen-len(b) == specItemQ(old(b)))
 // @ loop 1 invariant imp(specItemCanon(old(b)) && len(b) == ilen, typeid == 0 && message == nil)
 // @ loop 1 invariant imp(specItemCanon(old(b)) && ilen-len(b) == specItemP(old(b)), typeid == specItemT(old(b)) && message == nil)
@@ -215,6 +259,8 @@ func contract_ConsumeFieldValue(b []byte, wantLen bool) (typeid protowire.Number
 	// with wantLen the result is one complete length-delimited value (prefix = length of the rest),
 	// also when several message subfields were merged
 	ensures(imp(err == nil && wantLen, protowire.SpecBytesLen(message) == len(message)))
+	// the returned value holds as many payload bytes as the item's message subfields together
+	ensures(imp(err == nil && message != nil, specMsgPayload(message, wantLen) == specItemPayload(b, 0)))
 	// the encoder's form is accepted and decoded exactly
 	ensures(imp(specItemCanon(b), err == nil && typeid == specItemT(b) && n == specItemQ(b)+1 && specItemMsg(message, b, wantLen)))
 	// the input buffer is never written (no modifies clause) and the result is a capacity-limited
